@@ -19,4 +19,6 @@ def run(tier):
     wave2_nio.index_advances_rule(run, f, "C17-INDEX-ADVANCES")
     # clauses added for the wave-2 seeds (rules/wave2.py; DESIGN 12a)
     wave2_nio.no_reissue_while_head_wrong_rule(run, f, "C17-HEAD-UNUSED-AFTER-SUCCESS")
+    # clauses added for the wave-2 seeds (rules/wave2.py; DESIGN 12a)
+    wave2_nio.offset_per_element_rule(run, f, "C17-OFFSET-PER-ELEMENT")
     return run.finish()
